@@ -105,6 +105,8 @@ L2_REPCARD = [RP + n for n in ["andCardinality_spec", "orCardinality_spec", "int
     ["RModel.Impl.Cont.andCardinalityQ_spec", "RModel.Impl.Cont.intersectsQ_spec", "RModel.Impl.Cont.equalsQ_spec"]
 L1_XFORM = ["RModel.BSet.mem_shift", "RModel.BSet.canon_shift", "RModel.BSet.mem_flipRange", "RModel.BSet.canon_xor"]
 
+L2_CKSUM = ["RModel.Impl.Rep." + n for n in ["checksum_congr", "checksum_clone", "checksum_cloneSrc", "checksum_asDecoded",
+                                              "checksum_roundtrip", "checksum_frozenOf", "checksum_frozen_roundtrip"]]
 C16_OWNS = {"off", "off32", "sflip", "eq", "dense", "fromdense", "frombitset", "densechk", "dig",
             "zdense", "zfromdense", "safe", "digall", "zdetach", "zsame", "l2off", "l2sflip", "l2dense", "l2fromdense"}
 
@@ -118,9 +120,9 @@ PROPS = {
             "modules": DEFAULT_MODULES + [FACTS, PINS_MOD, "RProofs.ContMut", "RProofs.RepMut"],
             "owns": {"new", "add", "cadd", "addint", "addmany", "addmanyfrom", "rem", "crem", "addr", "remr", "flip", "clear", "opt", "clone",
                      "cowclone", "detach", "setcow", "dig", "card", "empty", "of", "kern", "l2mut"}},
-    "C03": {"suites": [("query", 1.0), ("kernq", 0.3), ("eqpairs", 0.5), ("kernq2", 0.3), ("l2q", 0.7)], "theorems": L1_QUERY + L2_QUERY + L2_REPQ,
-            "modules": DEFAULT_MODULES + ["RProofs.ContQuery", "RProofs.ContQueryNumRuns", "RProofs.RepQuery"],
-            "owns": {"card", "empty", "has", "min", "max", "rank", "sel", "cir", "iwi", "eq", "toarr", "toexarr", "chkeq", "dig", "kern", "mkrepr", "l2q", "l2q2"}},
+    "C03": {"suites": [("query", 1.0), ("kernq", 0.3), ("eqpairs", 0.5), ("kernq2", 0.3), ("l2q", 0.7)], "theorems": L1_QUERY + L2_QUERY + L2_REPQ + L2_CKSUM,
+            "modules": DEFAULT_MODULES + ["RProofs.ContQuery", "RProofs.ContQueryNumRuns", "RProofs.RepQuery", "RProofs.Checksum"],
+            "owns": {"card", "empty", "has", "min", "max", "rank", "sel", "cir", "iwi", "eq", "toarr", "toexarr", "chkeq", "dig", "kern", "mkrepr", "l2q", "l2q2", "l2cksum"}},
     "C04": {"suites": [("iter", 1.0), ("iterun", 1.0), ("l2iter", 0.6), ("l2iter2", 0.5)], "modules": DEFAULT_MODULES + ["RProofs.Iter", "RProofs.IterAdv", "RProofs.IterRev", "RProofs.IterMany", "RProofs.Iter2"],
             "theorems": L1_NBR[:4] + ["RModel.BSet.rankLt_eq_count", "RModel.BSet.card_eq_rankLt", "RModel.BSet.select_spec",
                                       "RModel.BSet.select_none", "RModel.BSet.mem_toList", "RModel.BSet.toList_sorted",
